@@ -15,12 +15,12 @@ open NsyncVerif
 def allOrds : List VC.Ord := [.rlx, .acq, .rel, .ar]
 
 def WSite.all : List WSite :=
-  [.spin0, .spin2, .waitRel, .waitRel2, .sigLd, .sigRel, .bcLd, .bcRel, .enqRel, .deqRel]
+  [.spin0, .spin2, .waitRel, .waitRel2, .sigLd, .sigRel, .bcLd, .bcRel, .enqRel, .deqRel, .dbgLd, .dbgRel]
 
 def RSite.all : List RSite :=
   [.wSt1, .wRc, .wHead, .wChk, .wChk2, .wCmp, .wRmLd, .wRmCas, .wClr, .wTail,
    .sRcLd true, .sRcLd false, .sRcCas true, .sRcCas false, .bRcLd, .bRcCas,
-   .wake, .ready, .enqSt, .deqLd, .deqSt, .deqSpin]
+   .wake, .ready, .enqSt, .deqLd, .deqSt, .deqSpin, .dbgW, .dbgRc]
 
 def MSite.all : List MSite := [.wMode, .wwLd, .wwCas, .wwRelLd, .wwRelCas, .wwRelLd2]
 
